@@ -48,8 +48,15 @@ pub fn set_managed(b: bool) {
 pub fn start_hang_monitor(prop: &'static str, tier: String, limit: std::time::Duration) {
     std::thread::spawn(move || {
         let mut seen: std::collections::HashMap<usize, (u64, std::time::Instant)> = Default::default();
+        let mut last = std::time::Instant::now();
         loop {
             std::thread::sleep(std::time::Duration::from_millis(250));
+            // if this monitor itself was held up (machine suspended or starved), the other threads were too:
+            // their time does not count
+            if last.elapsed() > std::time::Duration::from_secs(2) {
+                seen.clear();
+            }
+            last = std::time::Instant::now();
             let regs: Vec<Arc<Heartbeat>> = REGISTRY.lock().unwrap().clone();
             for h in &regs {
                 let id = Arc::as_ptr(h) as usize;
